@@ -577,7 +577,11 @@ def _iter_segments(
                                 slice_start,
                                 element.template_slice.stop + tfs_offset,
                             ),
-                            element.template_slice,
+                            slice(
+                                element.template_slice.start
+                                + consumed_element_length,
+                                element.template_slice.stop,
+                            ),
                             templated_file,
                         ),
                         subslice=slice(consumed_element_length, None),
@@ -616,11 +620,11 @@ def _iter_segments(
                             consumed_element_length,
                         )
                         if stashed_source_idx is not None:
-                            raise NotImplementedError(  # pragma: no cover
-                                "Found literal whitespace with stashed idx!"
-                            )
-                        incremental_length = (
-                            tfs.templated_slice.stop - element.template_slice.start
+                            # The element already spills over from a templated
+                            # slice, so it cannot be split here. Keep spilling.
+                            continue
+                        incremental_length = tfs.templated_slice.stop - (
+                            element.template_slice.start + consumed_element_length
                         )
                         yield element.to_segment(
                             pos_marker=PositionMarker(
@@ -630,7 +634,11 @@ def _iter_segments(
                                     + tfs_offset,
                                     tfs.templated_slice.stop + tfs_offset,
                                 ),
-                                element.template_slice,
+                                slice(
+                                    element.template_slice.start
+                                    + consumed_element_length,
+                                    tfs.templated_slice.stop,
+                                ),
                                 templated_file,
                             ),
                             # Subdivide the existing segment.
@@ -676,9 +684,7 @@ def _iter_segments(
                         if stashed_source_idx is not None:
                             slice_start = stashed_source_idx
                         else:
-                            slice_start = (
-                                tfs.source_slice.start + consumed_element_length
-                            )
+                            slice_start = tfs.source_slice.start
                         yield element.to_segment(
                             pos_marker=PositionMarker(
                                 slice(
@@ -687,7 +693,11 @@ def _iter_segments(
                                     # slice. We can't subdivide any better.
                                     tfs.source_slice.stop,
                                 ),
-                                element.template_slice,
+                                slice(
+                                    element.template_slice.start
+                                    + consumed_element_length,
+                                    element.template_slice.stop,
+                                ),
                                 templated_file,
                             ),
                             subslice=slice(consumed_element_length, None),
